@@ -23,6 +23,8 @@ type ProgCase struct {
 		Mem    sparseMem        `json:"mem"`
 		N      int              `json:"n"`
 		Cyc1   int              `json:"cyc1"`
+		Cyc2   int              `json:"cyc2"`
+		Cyc3   int              `json:"cyc3"`
 		Pcs    []int            `json:"pcs"`
 		Addrs  []int            `json:"addrs"`
 	} `json:"exp"`
